@@ -792,7 +792,7 @@ fn record<B: Backend>(rep: &mut Report, t: Target, genr: &str, input: &str, res:
 pub fn backend<B: Backend>(opts: &Opts, rep: &mut Report) {
     let fx = fixture::<B>(opts.seed);
     let mut idx = 0u64;
-    let mut expensive_left: i64 = opts.size(6, 60) as i64;
+    let mut expensive_left: i64 = opts.size(10, 100) as i64;
     let stream = format!("c04.{}", B::NAME);
     let mut run = |rep: &mut Report, t: Target, genr: &str, input: &str, expensive_left: &mut i64| {
         rep.journal(&format!("{} {:?} {genr} {}", B::NAME, t, hx(input.as_bytes())));
@@ -802,7 +802,7 @@ pub fn backend<B: Backend>(opts: &Opts, rep: &mut Report) {
 
     // (i) grammar: header variants x body of every decoded length 0..700
     let step = opts.size(1, 1);
-    let reps = opts.size(1, 6);
+    let reps = opts.size(3, 12);
     for &t in TARGETS {
         let seed_body: Option<Vec<u8>> = fx.seeds.iter().find(|(tt, _)| *tt == t).map(|(_, s)| if t.is_token() { split_token(s).1 } else { split_paserk(s).1 });
         let mut len = 0;
@@ -829,7 +829,7 @@ pub fn backend<B: Backend>(opts: &Opts, rep: &mut Report) {
     }
 
     // (ii) mutated-valid
-    let n = opts.size(6000, 200_000);
+    let n = opts.size(60_000, 1_000_000);
     for _ in 0..n {
         idx += 1;
         if !opts.mine(idx) {
